@@ -16,6 +16,7 @@ type Ob struct {
 	Kind string   // "call" | "ret ok" | "ret fail" | "ret any" | "store" | "backedge" | "go"
 	Pat  string   // sink pattern (call pattern, ret(...), store(lhs, rhs), backedge(x), go(call))
 	Not  string   // optional: sites also matching this pattern are excluded
+	Nots []string // further exclusion patterns
 	Min  int      // minimum number of matching sites (default 1)
 	Max  int      // maximum (0 = unbounded)
 	Req  []string // clauses
@@ -87,8 +88,11 @@ func RunE1(c *Ctx, prop string, obs []Ob) {
 			continue
 		}
 		req := g.Proof
-		if len(req) == 0 {
+		if req == nil {
 			req = g.Facts
+		}
+		if len(req) == 0 {
+			continue // proved by dedicated obligations of the owning property
 		}
 		obs = append(obs, Ob{ID: "E1.guarantee", Fn: g.Fn, P: g.P, Kind: "ret ok", Req: req, Why: "callers assume these facts on the success edge of " + g.Fn})
 	}
@@ -112,12 +116,16 @@ func evalOb(c *Ctx, e *e1, ob Ob) {
 		return
 	}
 	f := e.analyse(fi)
-	var pat, not *Term
+	var pat *Term
+	var nots []*Term
 	if ob.Pat != "" {
 		pat = mustPattern(ob.Pat)
 	}
 	if ob.Not != "" {
-		not = mustPattern(ob.Not)
+		nots = append(nots, mustPattern(ob.Not))
+	}
+	for _, n := range ob.Nots {
+		nots = append(nots, mustPattern(n))
 	}
 	var clauses []Clause
 	for _, r := range ob.Req {
@@ -138,11 +146,15 @@ func evalOb(c *Ctx, e *e1, ob Ob) {
 				continue
 			}
 		}
-		if not != nil {
+		excluded := false
+		for _, np := range nots {
 			nb := base.clone()
-			if unify(not, s.term, nb) {
-				continue
+			if unify(np, s.term, nb) {
+				excluded = true
 			}
+		}
+		if excluded {
+			continue
 		}
 		if kind == "ret" {
 			for i, op := range s.term.A {
